@@ -66,6 +66,9 @@ TEXTS = {
     "C18": {"engine": "procs", "design_ref": "DESIGN.md 3/C18", "technique": "PBT with real processes: generated assignment of names to the three environment levels and per-job variables; precedence model and isolation oracle on the captured output",
             "level_text": "Every case generates which of six names is defined at which of the three levels (process, pipeline, task) with values full of shell-significant characters, runs 2-5 concurrent jobs through the real TaskRunner/pgid executor/mvdan-sh, and reads back what a real child process (vhelper dumpenv), the interpreter's own expansion and the rendered script saw; the oracle is the precedence rule of the statement, byte for byte, plus isolation between jobs/tasks and the refusal of the reserved variable name.",
             "level_note": "Trusted: cmd/vhelper, /proc-free observation through the FileOutputStore, the harness's copy of the createTaskRunner wiring of app.appAction. Names are valid identifiers outside the shell's own variables (PATH, HOME, PWD, IFS, TASK_NAME are not used as names)."},
+    "C19": {"engine": "procs", "design_ref": "DESIGN.md 3/C19", "technique": "PBT with real processes: generated chunk sequences on both streams over several commands and concurrent jobs; byte-equality oracle against the log store and the log API",
+            "level_text": "Each case runs 1-6 jobs x 1-4 tasks at the same time; every task has 1-4 commands that write generated, marker-prefixed chunks to stdout/stderr (0 B to 300 KB, 8 MB in the thorough tier, partial lines, binary or UTF-8), some through interpreter builtins; the oracle is byte equality between what was written, FileOutputStore.Reader and GET /job/logs, plus 404 for foreign tasks and unknown jobs.",
+            "level_note": "Trusted: cmd/vhelper emit writes exactly its spec; the relative order between stdout and stderr is not defined by the statement and not asserted."},
 }
 
 ENGINES = [
@@ -80,5 +83,5 @@ ENGINES = [
 
 NOT_APPLICABLE = [
     {"property_id": p, "reason": "check not built yet in this round (planned engine in DESIGN.md); not claimed until it exists"}
-    for p in ["C19", "C20"]
+    for p in ["C20"]
 ]
